@@ -81,6 +81,12 @@ class Tracer:
                         events.append(e_)
                         n = arity_of(node)
                         tag = f"elemcall:{f.attr}" if recv == "elem" else f"elemcall:{recv}.{f.attr}"
+                        if a or kw:
+                            # the same method called with other arguments is another value
+                            argtxt = ",".join([canon(x) for x in a] + [f"{k_}={canon(v_)}" for k_, v_ in sorted(kw.items())])
+                            if not all(isinstance(x, Path) for x in a) or kw:
+                                tag += "(" + argtxt + ")"
+                        e_.tag = tag
                         if n:
                             return tuple(Path((f"{tag}#{k}",)) for k in range(n))
                         return Path((tag,))
